@@ -19,7 +19,7 @@ CHECKS = {
             "Graphs beyond 4 files are sampled. Files are rendered by zdrive with two components per file; reachability is computed independently in Python.",
             "process-boundary crash/termination monitor + output-set oracle over exhaustively enumerated import graphs"),
     "C12": ("exploration", "L",
-            "The real library is run repeatedly on identical inputs across fresh processes (fresh hash seeds), threads, repeated calls on one FilesToRead, permuted registration orders and the directory-enumerating helper; any byte difference between outputs is a violation.",
+            "The real library is run repeatedly on identical inputs across fresh processes (fresh hash seeds), threads, repeated calls on one FilesToRead, permuted registration orders, the directory-enumerating helper, and histories of different inputs in one process (each output compared with that input's fresh-process output); any byte difference between outputs is a violation.",
             "A hash-order dependence on an input with k operations escapes N processes with probability ~ (1/k!)^(N-1); the corpus has many multi-operation WSDLs.",
             "byte-equality monitor over repeated executions (processes x threads x orders x call histories)"),
     "C13": ("exploration", "L",
@@ -27,7 +27,7 @@ CHECKS = {
             "An unbounded input space, sampled; the evidence reports outcome distribution and operator classes reached.",
             "process-boundary crash/hang monitor under mutation-, grammar- and (thorough) coverage-guided-fuzzer-generated hostile inputs"),
     "C15": ("fault_enumeration", "L",
-            "write_xml is run on an instrumented io::Write that fails at write call k for every k (small/medium documents; sampled for the 10^5-call ones) x {once, forever} x error kinds; the result must be Err(Io), never Ok or panic; short-write sinks must yield byte-identical output.",
+            "write_xml is run on an instrumented io::Write that fails at write call k for every k (small/medium documents; sampled for the 10^5-call ones) x {once, forever} x error kinds; the result must be Err(Io), never Ok or panic; sinks that run full at a byte count and then accept nothing (Ok(0)) must give Err(Io) as well; short-write sinks must yield byte-identical output.",
             "Fault point = one io::Write::write call; flush is never called by the writer.",
             "fault injection at every write-call index with outcome monitor"),
     "C17": ("fault_enumeration", "C",
